@@ -166,36 +166,34 @@ theorem set_all_three (m : FMap) (p : Str) (e : Entry) (c mo a : Int) (h : m.fin
 
 /-! ### writers: publication keeps `created` and `accessed` -/
 
-/-- flush / drop of a writer on an existing entry: content := buffer, `modified := now`,
+/-- flush / drop of a writer on an existing file: content := buffer, `modified := now`,
 `created` and `accessed` kept; every other key untouched -/
 theorem publish_keeps_created_accessed (files : FMap) (key : Str) (buf : Bytes) (e : Entry)
-    (h : files.find? key = some e) :
+    (h : files.find? key = some e) (hf : e.ftype = .file) :
     (memPublish files key buf).find? key =
       some { ftype := .file, content := buf, created := e.created, modified := .now,
              accessed := e.accessed } ∧
     ∀ k, k ≠ key → (memPublish files key buf).find? k = files.find? k := by
   unfold memPublish
-  refine ⟨by simp [h], fun k hk => ?_⟩
+  simp only [h, hf, ↓reduceIte]
+  refine ⟨by simp, fun k hk => ?_⟩
   exact find?_insert_ne _ _ _ _ hk
 
-/-- a fresh key: `created := now` -/
+/-- a key that is gone (the file was removed while the handle was open): nothing is published,
+no entry — and no timestamp — appears -/
 theorem publish_fresh (files : FMap) (key : Str) (buf : Bytes) (h : files.find? key = none) :
-    (memPublish files key buf).find? key =
-      some { ftype := .file, content := buf, created := .now, modified := .now,
-             accessed := .unset } ∧
-    ∀ k, k ≠ key → (memPublish files key buf).find? k = files.find? k := by
+    memPublish files key buf = files := by
   unfold memPublish
-  refine ⟨by simp [h], fun k hk => ?_⟩
-  exact find?_insert_ne _ _ _ _ hk
+  simp only [h]
 
 /-- a creation time set explicitly survives any number of later publications -/
 theorem publish_after_setCreated (m : FMap) (p : Str) (e : Entry) (t : Int) (buf : Bytes)
-    (h : m.find? p = some e) :
+    (h : m.find? p = some e) (hf : e.ftype = .file) :
     ∃ md, Mem.metadata (memPublish (Mem.setCreated m p (.at t)).2 p buf) p = .ok md ∧
       md.created = .at t ∧ md.accessed = e.accessed ∧ md.modified = .now ∧ md.len = buf.length := by
   rw [setCreated_entry m p e _ h]
   have := (publish_keeps_created_accessed (m.insert p { e with created := .at t }) p buf _
-    (find?_insert_self _ _ _)).1
+    (find?_insert_self _ _ _) hf).1
   exact ⟨{ ftype := .file, len := buf.length, created := .at t, modified := .now,
            accessed := e.accessed }, by simp [Mem.metadata, this, Entry.meta], rfl, rfl, rfl, rfl⟩
 
@@ -211,7 +209,7 @@ theorem append_session_keeps_created (m : FMap) (p : Str) (e : Entry) (bs : Byte
     Mem.metadata (memPublish m p (cursorWrite e.content e.content.length bs)) p =
       .ok { ftype := .file, len := e.content.length + bs.length, created := e.created,
             modified := .now, accessed := e.accessed } := by
-  have hp := (publish_keeps_created_accessed m p (cursorWrite e.content e.content.length bs) e h).1
+  have hp := (publish_keeps_created_accessed m p (cursorWrite e.content e.content.length bs) e h hf).1
   rw [C14.write_at_end] at hp ⊢
   refine ⟨by simp [Mem.appendFile, h, hf], hp, ?_⟩
   simp [Mem.metadata, hp, Entry.meta]
@@ -251,7 +249,7 @@ theorem append_session_world (i : Nat) (w : World) (l : Leaf) (p : Str) (e : Ent
   have hw : w.setLeafFiles i l.files = w := World.setLeafFiles_self w i l hl
   simp only [bind, M.bind, leafFS, onLeaf, hl, hk, Mem.appendFile, h, hf, Res.map, hw,
     WHandle.writeAllAndDrop, WHandle.write, WHandle.drop, WHandle.flush, C14.write_at_end,
-    memPublish, ne_eq, not_true_eq_false, ite_false]
+    memPublish, ne_eq, not_true_eq_false, ite_false, ↓reduceIte]
 
 /-- `create_file` over an existing file replaces the entry by a new empty file whose three
 times are `now`: truncation resets the creation time -/
@@ -272,7 +270,7 @@ theorem create_session_created_now (m : FMap) (p : Str) (e : Entry) (buf : Bytes
       md.created = .now ∧ md.len = buf.length := by
   rw [(create_file_resets m p e h hf hpar).1]
   have := (publish_keeps_created_accessed (m.insert p fileEntryNow) p buf _
-    (find?_insert_self _ _ _)).1
+    (find?_insert_self _ _ _) rfl).1
   exact ⟨{ ftype := .file, len := buf.length, created := .now, modified := .now,
            accessed := .now }, by rw [Mem.metadata, this]; rfl, rfl, rfl⟩
 
